@@ -118,5 +118,7 @@ package atree
 //@        is(mcur(m, key), Slab) && !is(mcur(m, key), SlabIDStorable) && !vidEq(vid, old(sid(mcur(m, key)))) ==> !found && err == nil && mapParentUntouched()
 //@   ensures[C02 C11] (old(inlinedC(c)) || old(inlinableC(c, maxInlineSize))) && mcurErr(m, key) == 0 && !is(mcur(m, key), WrapperStorable) &&
 //@        !is(mcur(m, key), Slab) && !is(mcur(m, key), SlabIDStorable) ==> !found && err == nil && mapParentUntouched()
+//@   ensures[C02 C11] (old(inlinedC(c)) || old(inlinableC(c, maxInlineSize))) && mcurErr(m, key) == 0 && !is(mcur(m, key), WrapperStorable) &&
+//@        is(mcur(m, key), SlabIDStorable) && !vidEq(vid, SlabID(as(mcur(m, key), SlabIDStorable))) ==> !found && err == nil && mapParentUntouched()
 //@   ensures[C11] !found && err == nil ==> mapParentUntouched()
 //@   modifies heap, ghost.sto, ghost.stored, ghost.touched, ghost.notified, alloc
